@@ -30,7 +30,9 @@ type Anchors struct {
 	CollMutex   *types.Var // Collection.<sync.Mutex>
 	ViewCache   *types.Var // Collection.<map[viewKey]*rosmarView>
 
-	TxnRunner   *ssa.Function   // calls (*sql.DB).Begin
+	TxnRunner   *ssa.Function   // outermost function that takes the transaction body (func(*sql.Tx) error) and leads to Begin
+	TxnCore     *ssa.Function   // the function that calls (*sql.DB).Begin (== TxnRunner unless the runner was split into helpers)
+	TxnChain    []*ssa.Function // TxnRunner ... TxnCore
 	Allocator   *ssa.Function   // direct caller of TxnRunner that hands a new CAS to a callback parameter
 	AllocClos   *ssa.Function   // the closure Allocator passes to TxnRunner
 	ClockNow    *ssa.Function   // source of the CAS inside AllocClos
@@ -282,7 +284,38 @@ func (m *Model) resolveAnchors() error {
 		}
 		return nil
 	}
-	a.TxnRunner = one("TxnRunner", m.fnsCalling(func(c *ssa.CallCommon) bool { return isMethodCall(c, "database/sql", "DB", "Begin") || isMethodCall(c, "database/sql", "DB", "BeginTx") }))
+	a.TxnCore = one("TxnRunner", m.fnsCalling(func(c *ssa.CallCommon) bool { return isMethodCall(c, "database/sql", "DB", "Begin") || isMethodCall(c, "database/sql", "DB", "BeginTx") }))
+	a.TxnRunner = a.TxnCore
+	if a.TxnCore != nil {
+		// walk outwards while the only caller merely passes its own func parameter along
+		a.TxnChain = []*ssa.Function{a.TxnCore}
+		cur := a.TxnCore
+		for depth := 0; depth < 4; depth++ {
+			var outer *ssa.Function
+			n := 0
+			for _, g := range m.Funcs {
+				m.eachCall(g, func(c ssa.CallInstruction) {
+					if c.Common().StaticCallee() != cur {
+						return
+					}
+					n++
+					for _, arg := range c.Common().Args {
+						if p, ok := stripConv(arg).(*ssa.Parameter); ok && p.Parent() == g {
+							if _, isFn := p.Type().Underlying().(*types.Signature); isFn {
+								outer = g
+							}
+						}
+					}
+				})
+			}
+			if outer == nil || n != 1 {
+				break
+			}
+			cur = outer
+			a.TxnChain = append([]*ssa.Function{cur}, a.TxnChain...)
+		}
+		a.TxnRunner = cur
+	}
 	a.OpenFn = one("OpenFn", m.fnsCalling(func(c *ssa.CallCommon) bool {
 		f := c.StaticCallee()
 		return f != nil && f.Pkg != nil && f.Pkg.Pkg.Path() == "database/sql" && f.Name() == "Open"
@@ -292,12 +325,14 @@ func (m *Model) resolveAnchors() error {
 	// closed flag: the bool field of the bucket loaded in the txn runner
 	if a.TxnRunner != nil {
 		seen := map[*types.Var]bool{}
-		for _, b := range a.TxnRunner.Blocks {
-			for _, in := range b.Instrs {
-				if fa, ok := in.(*ssa.FieldAddr); ok {
-					f := fieldOf(fa)
-					if f != nil && types.Identical(f.Type(), types.Typ[types.Bool]) && ownerIs(fa, a.BucketType) {
-						seen[f] = true
+		for _, cf := range a.TxnChain {
+			for _, b := range cf.Blocks {
+				for _, in := range b.Instrs {
+					if fa, ok := in.(*ssa.FieldAddr); ok {
+						f := fieldOf(fa)
+						if f != nil && types.Identical(f.Type(), types.Typ[types.Bool]) && ownerIs(fa, a.BucketType) {
+							seen[f] = true
+						}
 					}
 				}
 			}
@@ -374,11 +409,23 @@ func (m *Model) resolveAnchors() error {
 		a.FanoutFn = one("FanoutFn", fan)
 	}
 
-	// allocator wrapper and clock
-	if a.TxnRunner != nil {
+	// allocator wrapper and clock: the direct caller of the runner that has a parameter of a func type
+	// returning the event type (the write callback), and the function value it hands to the runner
+	if a.TxnRunner != nil && a.EventType != nil {
 		var allocs []*ssa.Function
 		for _, fn := range m.Funcs {
 			if fn.Parent() != nil {
+				continue
+			}
+			hasCb := false
+			for _, p := range fn.Params {
+				if sig, ok := p.Type().Underlying().(*types.Signature); ok && sig.Results().Len() > 0 {
+					if pt, ok := sig.Results().At(0).Type().(*types.Pointer); ok && pt.Elem() == a.EventType {
+						hasCb = true
+					}
+				}
+			}
+			if !hasCb {
 				continue
 			}
 			m.eachCall(fn, func(c ssa.CallInstruction) {
@@ -386,28 +433,19 @@ func (m *Model) resolveAnchors() error {
 					return
 				}
 				for _, arg := range c.Common().Args {
-					mc, ok := arg.(*ssa.MakeClosure)
-					if !ok {
-						continue
-					}
-					clos := mc.Fn.(*ssa.Function)
-					// does the closure call a func-typed parameter of fn (captured)?
-					m.eachCall(clos, func(cc ssa.CallInstruction) {
-						if v := cc.Common().Value; !cc.Common().IsInvoke() && cc.Common().StaticCallee() == nil {
-							if m.derivesFromParam(v, clos, fn) {
-								a.Allocator = fn
-								a.AllocClos = clos
-								allocs = append(allocs, fn)
-							}
+					for _, t := range m.funcTargets(arg) {
+						if m.inPkg(t) {
+							a.Allocator, a.AllocClos = fn, t
+							allocs = append(allocs, fn)
 						}
-					})
+					}
 				}
 			})
 		}
 		if len(allocs) != 1 {
 			a.Allocator, a.AllocClos = nil, nil
 			if len(allocs) == 0 {
-				a.problem("Allocator", "no direct caller of the txn runner hands control to a callback parameter")
+				a.problem("Allocator", "no direct caller of the txn runner takes a write callback returning the event type")
 			} else {
 				a.problem("Allocator", "ambiguous CAS allocator wrappers: %s", names(allocs))
 			}
@@ -417,6 +455,9 @@ func (m *Model) resolveAnchors() error {
 		// the callback call: find the argument that is not the *sql.Tx; trace it to a call
 		m.eachCall(a.AllocClos, func(cc ssa.CallInstruction) {
 			if cc.Common().StaticCallee() != nil || cc.Common().IsInvoke() {
+				return
+			}
+			if _, isB := cc.Common().Value.(*ssa.Builtin); isB {
 				return
 			}
 			for _, arg := range cc.Common().Args {
